@@ -481,6 +481,11 @@ func (s *Script) solve(toMS int) []Result {
 		default:
 			r.Status = "unknown"
 			r.RawTail = tail(out, 400)
+			// an unsettled reachability probe is not an alarm (check.go): the
+			// quick tier does not spend three more solver runs on it
+			if e.kind == evCover && toMS <= 20000 {
+				break
+			}
 			redo = append(redo, i)
 		}
 		results[i] = r
